@@ -135,16 +135,21 @@ Lemma LC : forall (TC : list nat),
   (forall i cl, In i TC -> get_client g i = Some cl -> c_mu cl = None \/ c_mu cl = Some t) ->
   (forall i cl, get_client g i = Some cl -> exists cl', get_client g' i = Some cl' /\
        (~ In i TC -> c_h cl' = c_h cl /\ c_mu cl' = c_mu cl /\ c_released cl' = c_released cl)) ->
-  (forall i cl', get_client g' i = Some cl' -> (exists cl, get_client g i = Some cl) \/ c_mu cl' = None) ->
+  (forall i cl', get_client g' i = Some cl' -> (exists cl, get_client g i = Some cl) \/
+                                               (c_mu cl' = None /\ c_released cl' = false)) ->
   (forall i cl', get_client g' i = Some cl' -> client_ok g' cl') ->
   (forall k c0 cur, t_pc (F th) = CWalk k c0 cur ->
        exists cl', get_client g' c0 = Some cl' /\ c_h cl' = Some cur /\ c_mu cl' = Some t /\
                    (k = KRelease -> c_released cl' = true)) ->
   (forall i cl' t', In i TC -> get_client g' i = Some cl' -> c_mu cl' = Some t' ->
        t' = t /\ exists k cur, t_pc (F th) = CWalk k i cur) ->
+  (forall i cl', In i TC -> get_client g' i = Some cl' -> c_released cl' = true -> c_mu cl' = None ->
+       c_h cl' = None) ->
+  (forall k c0 cur cl', t_pc (F th) = CWalk k c0 cur -> get_client g' c0 = Some cl' -> k <> KRelease ->
+       c_released cl' = false) ->
   InvC g'.
 Proof.
-  intros TC I Hold Hmine Hfw Hbk Hok Hnew Hcm.
+  intros TC I Hold Hmine Hfw Hbk Hok Hnew Hcm Hrel Hnrel.
   constructor.
   - auto.
   - intros t' k c cur P. destruct (pcs_new _ _ P) as [(-> & E)|(Hne & P0)].
@@ -157,7 +162,7 @@ Proof.
         intros K. rewrite S3. auto.
   - intros i cl' t' A B. destruct (in_dec Nat.eq_dec i TC) as [Hi|Hi].
     + destruct (Hcm _ _ _ Hi A B) as (-> & k & cur & E). exists k, cur. rewrite <- E. apply pcs_me'.
-    + destruct (Hbk _ _ A) as [(cl & A0)|X]; [|congruence].
+    + destruct (Hbk _ _ A) as [(cl & A0)|(X & _)]; [|congruence].
       destruct (Hfw _ _ A0) as (cl2 & A2 & Hsame). rewrite A in A2; inversion A2; subst cl2.
       destruct (Hsame Hi) as (S1 & S2 & S3).
       assert (B0 : c_mu cl = Some t') by congruence.
@@ -165,6 +170,18 @@ Proof.
       destruct (Nat.eq_dec t' t) as [->|Hne].
       * pose proof (pc_of_fun _ _ _ _ P pcs_me) as E. symmetry in E. apply Hold in E. contradiction.
       * exists k, cur. apply pcs_keep; auto.
+  - intros i cl' A B C. destruct (in_dec Nat.eq_dec i TC) as [Hi|Hi].
+    + eapply Hrel; eauto.
+    + destruct (Hbk _ _ A) as [(cl & A0)|(_ & X)]; [|congruence].
+      destruct (Hfw _ _ A0) as (cl2 & A2 & Hsame). rewrite A in A2; inversion A2; subst cl2.
+      destruct (Hsame Hi) as (S1 & S2 & S3). rewrite S1. apply (inv_rel g I i cl A0); congruence.
+  - intros t' k c cur cl' P A Hk. destruct (pcs_new _ _ P) as [(-> & E)|(Hne & P0)].
+    + eapply Hnrel; eauto.
+    + destruct (inv_cwalk g I _ _ _ _ P0) as (cl & A0 & B0 & C0 & D0).
+      destruct (Hfw _ _ A0) as (cl2 & A2 & Hsame). rewrite A in A2; inversion A2; subst cl2.
+      destruct (in_dec Nat.eq_dec c TC) as [Hi|Hi].
+      * destruct (Hmine _ _ Hi A0) as [X|X]; congruence.
+      * destruct (Hsame Hi) as (S1 & S2 & S3). rewrite S3. apply (inv_nrel g I t' k c cur cl P0 A0 Hk).
 Qed.
 
 (* ---------------- flight group *)
@@ -264,6 +281,8 @@ Proof.
     + intros i cl' A. rewrite Hgc in A. eapply client_ok_mono; eauto. apply (inv_client g IC _ _ A).
     + intros k c0 cur E. exfalso. exact (Hc2 _ _ _ E).
     + intros i cl' t' [].
+    + intros i cl' [].
+    + intros k c0 cur9 cl' E. exfalso. exact (Hc2 _ _ _ E).
   - apply (LF g g' t th F Hth Ht []).
     + exact IF.
     + exact L.
@@ -320,6 +339,8 @@ Lemma G1 : forall g g' t th F x hk hk' c cl cl',
   (forall k c0 cur, t_pc (F th) = CWalk k c0 cur ->
       c0 = c /\ c_h cl' = Some cur /\ c_mu cl' = Some t /\ (k = KRelease -> c_released cl' = true)) ->
   (forall t', c_mu cl' = Some t' -> t' = t /\ exists k cur, t_pc (F th) = CWalk k c cur) ->
+  (c_released cl' = true -> c_mu cl' = None -> c_h cl' = None) ->
+  (forall k c0 cur, t_pc (F th) = CWalk k c0 cur -> k <> KRelease -> c_released cl' = false) ->
   (forall h, h <> x -> wclose h (F th) = wclose h th /\ wcall h (F th) = wcall h th) ->
   h_refs hk' = h_refs hk + (wtok x cl' - wtok x cl) ->
   h_calls hk' = h_calls hk + (wcall x (F th) - wcall x th) ->
@@ -330,7 +351,7 @@ Lemma G1 : forall g g' t th F x hk hk' c cl cl',
   Inv g'.
 Proof.
   intros g g' t th F x hk hk' c cl cl' I Hth Ht Hx Hfree Hh Hc Hcl Hm Hres Hrh Hmu' Hcmu Htgt Hrel Hok
-         Hf1 Hc1 Hf2 Hfm2 Hc2 Hcm Hw Erefs Ecalls Edone Eclose Eshut.
+         Hf1 Hc1 Hf2 Hfm2 Hc2 Hcm Hrl Hnrl Hw Erefs Ecalls Edone Eclose Eshut.
   assert (Hfw : forwarded x hk' = forwarded x hk) by (unfold forwarded; rewrite Hres, Hrh; auto).
   assert (L : links_le g g').
   { eapply (links_le_upd g g' x hk hk' Hx Hh). intros. rewrite Hfw. auto. }
@@ -393,6 +414,9 @@ Proof.
       * rewrite Hgc in A; auto. eapply client_ok_mono; eauto. apply (inv_client g IC _ _ A).
     + intros k c0 cur E. destruct (Hc2 _ _ _ E) as (-> & A & B & C). exists cl'. auto.
     + intros i cli t' [<-|[]] A B. assert (cli = cl') by congruence. subst. auto.
+    + intros i cli [<-|[]] A B C. assert (cli = cl') by congruence. subst. auto.
+    + intros k c0 cur9 cli E A Hk. destruct (Hc2 _ _ _ E) as (-> & _). assert (cli = cl') by congruence. subst.
+      eapply Hnrl; eauto.
   - (* flights *)
     apply (LF g g' t th F Hth Ht [x]).
     + exact IF.
@@ -521,6 +545,8 @@ Proof.
     + intros i cl' A. rewrite Hgc in A. eapply client_ok_mono; eauto. apply (inv_client g IC _ _ A).
     + intros k c0 cur E. exfalso. exact (Hc2 _ _ _ E).
     + intros i cl' t' [].
+    + intros i cl' [].
+    + intros k c0 cur9 cl' E. exfalso. exact (Hc2 _ _ _ E).
   - apply (LF g g' t th F Hth Ht [x]).
     + exact IF.
     + exact L.
@@ -575,10 +601,12 @@ Lemma G0 : forall g g' t th F c cl cl',
   (forall k c0 cur, t_pc (F th) = CWalk k c0 cur ->
       c0 = c /\ c_h cl' = Some cur /\ c_mu cl' = Some t /\ (k = KRelease -> c_released cl' = true)) ->
   (forall t', c_mu cl' = Some t' -> t' = t /\ exists k cur, t_pc (F th) = CWalk k c cur) ->
+  (c_released cl' = true -> c_mu cl' = None -> c_h cl' = None) ->
+  (forall k c0 cur, t_pc (F th) = CWalk k c0 cur -> k <> KRelease -> c_released cl' = false) ->
   (forall h, wclose h (F th) = wclose h th /\ wcall h (F th) = wcall h th) ->
   Inv g'.
 Proof.
-  intros g g' t th F c cl cl' I Hth Ht Hh Hc Hcl Hm Hcmu Htgt Hch Hrel Hf1 Hc1 Hf2 Hfm2 Hc2 Hcm Hw.
+  intros g g' t th F c cl cl' I Hth Ht Hh Hc Hcl Hm Hcmu Htgt Hch Hrel Hf1 Hc1 Hf2 Hfm2 Hc2 Hcm Hrl Hnrl Hw.
   assert (L : links_le g g') by (apply links_le_same_hooks; auto).
   assert (Htok : forall h, tokens g' h = tokens g h).
   { intros. eapply tokens_same_tgt; eauto. }
@@ -613,6 +641,9 @@ Proof.
       * rewrite Hgc in A; auto. eapply client_ok_mono; eauto. apply (inv_client g IC _ _ A).
     + intros k c0 cur E. destruct (Hc2 _ _ _ E) as (-> & A & B & C). exists cl'. auto.
     + intros i cli t' [<-|[]] A B. assert (cli = cl') by congruence. subst. auto.
+    + intros i cli [<-|[]] A B C. assert (cli = cl') by congruence. subst. auto.
+    + intros k c0 cur9 cli E A Hk. destruct (Hc2 _ _ _ E) as (-> & _). assert (cli = cl') by congruence. subst.
+      eapply Hnrl; eauto.
   - apply (LF g g' t th F Hth Ht []).
     + exact IF.
     + exact L.
@@ -714,6 +745,13 @@ Proof.
       * rewrite Hgn in A. inversion A; subst. discriminate.
       * rewrite Hgc in A; auto. destruct (inv_cmu g IC _ _ _ A B) as (k & cur & P).
         exists k, cur. apply Hpc; auto.
+    + intros i cl A B C. destruct (Nat.eq_dec i (length (clients g))) as [->|Hne].
+      * rewrite Hgn in A. inversion A; subst. discriminate.
+      * rewrite Hgc in A; auto. apply (inv_rel g IC i cl A B C).
+    + intros t k c cur cl P A Hk. apply Hpc in P.
+      destruct (inv_cwalk g IC _ _ _ _ P) as (cl0 & A0 & _).
+      assert (c <> length (clients g)) by (eapply Hlt; eauto).
+      rewrite Hgc in A; auto. apply (inv_nrel g IC t k c cur cl P A Hk).
   - constructor.
     + intros t p n c cur P. apply Hpc in P.
       destruct (inv_flight g IF _ _ _ _ _ P) as (hp & A1 & A2 & A3 & A4 & A5 & A6 & A7 & A8).
@@ -798,6 +836,13 @@ Proof.
       * rewrite Hgn in A. inversion A; subst. discriminate.
       * rewrite Hgc in A; auto. destruct (inv_cmu g IC _ _ _ A B) as (k & cur & P).
         exists k, cur. apply Hpc; auto.
+    + intros i cl A B C. destruct (Nat.eq_dec i (length (clients g))) as [->|Hne].
+      * rewrite Hgn in A. inversion A; subst. discriminate.
+      * rewrite Hgc in A; auto. apply (inv_rel g IC i cl A B C).
+    + intros t k c cur cl P A Hk. apply Hpc in P.
+      destruct (inv_cwalk g IC _ _ _ _ P) as (cl0 & A0 & _).
+      assert (c <> length (clients g)) by (eapply Hlt; eauto).
+      rewrite Hgc in A; auto. apply (inv_nrel g IC t k c cur cl P A Hk).
   - constructor.
     + intros t p n c cur P. apply Hpc in P.
       destruct (inv_flight g IF _ _ _ _ _ P) as (hp & A1 & A2 & A3 & A4 & A5 & A6 & A7 & A8).
